@@ -1,7 +1,6 @@
 package main
 
 import (
-
 	"flag"
 	"fmt"
 	"os"
@@ -50,6 +49,7 @@ func cmdSweep(args []string) {
 	to := fs.Int("timeout", 5, "")
 	verbose := fs.Bool("v", false, "")
 	showModel := fs.Bool("model", false, "")
+	jobsN := fs.Int("j", 16, "parallel solver processes")
 	fs.Parse(args)
 	e, err := LoadEngine(*repo)
 	if err != nil {
@@ -112,7 +112,7 @@ func cmdSweep(args []string) {
 			})
 		}
 	}
-	dischargeAll(jobs, 16)
+	dischargeAll(jobs, *jobsN)
 	np := 0
 	for _, o := range all {
 		if o.Status == "proved" {
@@ -181,4 +181,3 @@ func cmdDump(args []string) {
 		fmt.Println("SPEC-ERROR", se)
 	}
 }
-
